@@ -120,6 +120,8 @@ def run(out, tier, model_ok=True):
       sig, pw = rng.choice([0.9, 0.8, 0.95, 0.6, 0.99]), rng.choice([0.8, 0.9, 0.7, 0.5, 0.55])
     par_kw = {'n_test': rng.choice([1, 2, 7, 14, 28]), 'sig_level': sig, 'power_level': pw,
               'flevel': rng.choice([0.9, 0.95, 0.99])}
+    if rng.random() < 0.3:
+      par_kw['n_pretest_max'] = rng.randint(3, max(3, len(px) - 1))   # the diagnostics class is given the series as is
     check_case(out, rng, px, py, par_kw, sess, pending)
   if sess is not None and pending:
     res = sess.run()
